@@ -80,11 +80,14 @@ fn seq_enumeration<F: Fam>(spec: &CaseSpec, prop: &'static str) {
         tick();
         let mut c = cfg.clone();
         c.cutoff_k = k;
+        // C05, a third of the indices: maximize() is called a second time on the interrupted solver
+        c.second_call = prop == "C05" && (k + spec.gen_seed) % 3 == 0;
         let out = run_solver(&inst, &c);
         let kspec = CaseSpec { cfg: c, ..spec.clone() };
         with_acc(|a| {
             a.evaluations += 1;
             a.bump("cut_off_runs", 1);
+            if out.first_call.is_some() { a.bump("cut_off_runs_with_a_second_call_to_maximize", 1); }
             let case = || case_json(&kspec, inst.as_ref()).set("observed", out.json()).set("polls_of_uninterrupted_run", J::i(kmax));
             if let Some(p) = out.lib_panic() {
                 a.violation(prop, "panic", format!("panic inside the library when the cutoff fires at poll {k}: {} at {}:{}", p.msg, p.file, p.line), J::obj().set("panic_file", J::s(p.file.clone())).set("panic_line", J::i(p.line)), case());
@@ -131,6 +134,7 @@ fn judge_par_c05<F: Fam>(inst: &Arc<F>, spec: &CaseSpec, out: &Outcome) {
     with_acc(|a| {
         a.evaluations += 1;
         note_schedule(a, out);
+        if out.first_call.is_some() { a.bump("parallel_cut_off_runs_with_a_second_call_to_maximize", 1); }
         if out.livelock.is_some() { a.inconclusive("non-termination of the pooled diagram on a long-arc model (decided by C04 / C15)", light_case(spec, inst.as_ref())); return; }
         if out.sched.as_ref().map_or(false, |r| r.budget_exhausted) { a.inconclusive("scheduler step budget exhausted", light_case(spec, inst.as_ref())); return; }
         let case = || case_json(spec, inst.as_ref()).set("observed", out.json());
@@ -163,7 +167,11 @@ fn par_enumeration<F: Fam>(spec: &CaseSpec, plan: &Plan, seed: u64, quick: bool)
         let mut p = plan.clone();
         p.cutoff_k = k;
         p.poll_yields = true;
-        explore(&inst, spec, &p, seed ^ k, &mut |i, s, o| judge_par_c05(i, s, o));
+        // every other cutoff index: maximize() is called a second time on the interrupted solver (the bounds and the
+        // exactness flag of that call are what is judged)
+        let mut sp = spec.clone();
+        sp.cfg.second_call = (k ^ seed) % 2 == 0;
+        explore(&inst, &sp, &p, seed ^ k, &mut |i, s, o| judge_par_c05(i, s, o));
         k += step;
     }
 }
